@@ -9,7 +9,9 @@
 (* IOEnv.SEQ holds the value of every (inv, inp) made alone (recorded       *)
 (* single-threaded beforehand, twice).  Concurrent.tla's ResultsIntact, on  *)
 (* the observed calls: every call returns what it returns when made alone;  *)
-(* plus: every thread made all its calls, in order.                         *)
+(* plus: every thread made all its calls, in order.  One record is a run of *)
+(* a single thread making every call of the table in the opposite order in  *)
+(* a fresh process: "made alone" also means whatever was called before.     *)
 EXTENDS Naturals, Sequences, FiniteSets, TLC, Json, IOUtils
 Recs == ndJsonDeserialize(IOEnv.TRACE)
 Alone == ndJsonDeserialize(IOEnv.SEQ)
